@@ -125,6 +125,11 @@ CatSeq ==
          Set("general", "document_lang", "\"es-419\"", VStr("es-419", {"langtag"}), "valid"),
          Set("general", "document_lang", "\"en\"", VStr("en", {"langtag"}), "boundary"),
          Set("general", "document_lang", "\"not a tag\"", VStr("not a tag", {}), "invalid"),
+         \* letters that only LOOK like (or case-fold to) ASCII letters: LATIN SMALL LETTER LONG S, KELVIN SIGN, DOTLESS I
+         Set("general", "document_lang", "\"\\u017fv\"", VStr("(long s)v", {}), "invalid"),
+         Set("general", "document_lang", "\"\\u212ao\"", VStr("(kelvin)o", {}), "invalid"),
+         Set("general", "document_lang", "\"en-u\\u017f\"", VStr("en-u(long s)", {}), "invalid"),
+         Set("general", "document_lang", "\"\\u0131t-IT\"", VStr("(dotless i)t-IT", {}), "invalid"),
          Set("general", "document_lang", "5", VInt(5), "invalid"),
          Set("imsc_writer", "time_format", "\"clock_time\"", VStr("clock_time", {}), "valid"),
          Set("imsc_writer", "time_format", "\"frames\"", VStr("frames", {}), "valid"),
